@@ -33,11 +33,24 @@ SENS = {  # deviation / plausible bug -> what TLC must report
     "HeadersDropped": ("invariant", "Inv_Faithful"), "GiveUpOnEmptyRead": ("invariant", "Inv_Faithful"),
     "BodyTruncatedOk": ("invariant", "Inv_Faithful"),
 }
-SENS_QUICK = ["NoReadTimeout", "CloseDelimitedLost", "UnmodelledStatusIs502", "ChunkedTruncatedOk", "MapErrTo500",
-              "ForwardUnstripped", "PerOpTimeout"]
+SENS_QUICK = ["NoReadTimeout", "CloseDelimitedLost", "UnmodelledStatusIs502", "ChunkedTruncatedOk", "MapErrTo500", "ForwardUnstripped"]
+LB_SENS_QUICK = ["NoLock", "WrapLate"]
 LB_SENS = {"NoLock": "Inv_Rotation", "IncrementOutsideLock": "Inv_Rotation", "WrapLate": None, "RandomOffByOne": "Inv_InSet"}
 PROXY_ACTIONS = ["P_Strip", "P_Connect", "P_Write", "P_Read", "P_Map", "Up_Send", "Up_Close", "Tick"]
-LB_ACTIONS = ["Lock", "Sel_Read", "Sel_Write", "Unlock"]
+LB_ACTIONS = ["A_Lock", "A_SelRead", "A_SelWrite", "A_Unlock"]
+
+
+def _run_tlc(*a, **kw):
+    """vlib.run_tlc does not recognise this TLC's wording 'Error: Temporal property X was violated' and raises;
+    exit status 13 is TLC's code for a liveness violation and nothing else."""
+    try:
+        return run_tlc(*a, **kw)
+    except vlib.ToolError as e:
+        if "TLC failed rc=13" not in str(e):
+            raise
+        r = vlib.TLCResult()
+        r.rc, r.violation, r.violated_name, r.out = 13, "temporal", None, str(e)
+        return r
 
 
 def _gen_lines(r, first_id):
@@ -99,7 +112,7 @@ def _validate_lb(name, records, work, ctx=None):
     if ctx is not None:
         ctx.add_tlc("trace validation: %s (%d records)" % (name, len(records)), t)
     os.remove(path)
-    groups = len([p for p in t.prints if isinstance(p, dict) and "group" in p])
+    groups = max([p["group"] for p in t.prints if isinstance(p, dict) and "group" in p] or [0])
     accepted = t.violation == "invariant" and t.violated_name == "NotAccepted"
     if t.violation is not None and not accepted:
         raise vlib.ToolError("Trace_LoadBalancer failed: %s" % t.out[-1500:])
@@ -134,7 +147,7 @@ def run(tier, replay):
     ex = cf.ThreadPoolExecutor(max_workers=4)
 
     def tlc(key, module, cfg, **kw):
-        jobs[key] = ex.submit(run_tlc, module, cfg, D, work_id="c09-" + key, **kw)
+        jobs[key] = ex.submit(_run_tlc, module, cfg, D, work_id="c09-" + key, **kw)
 
     if thorough:
         tlc("mc", "MC_Proxy.tla", "MC_Proxy_thorough.cfg", workers=6, coverage=True, timeout=2400, heap="8g")
@@ -142,20 +155,20 @@ def run(tier, replay):
         tlc("mc_six", "MC_Proxy.tla", "MC_Proxy_six.cfg", workers=2, timeout=1200)
     else:
         tlc("mc", "MC_Proxy.tla", "MC_Proxy_quick.cfg", workers=4, coverage=True, timeout=900)
-    tlc("mc_fwd", "MC_Proxy.tla", "MC_Proxy_fwd.cfg", workers=2, timeout=900)
+    tlc("mc_fwd", "MC_Proxy.tla", "MC_Proxy_fwd.cfg" if thorough else "MC_Proxy_fwd_quick.cfg", workers=2, timeout=900)
     tlc("lb", "LoadBalancer.tla", "MC_LoadBalancer_thorough.cfg" if thorough else "MC_LoadBalancer_quick.cfg", workers=4, coverage=True, timeout=900)
     gens = [("fast", "Gen_Proxy_fast_thorough.cfg" if thorough else "Gen_Proxy_fast_quick.cfg", 450, 3),
-            ("timing", "Gen_Proxy_timing.cfg", 450, 3), ("trickle6", "Gen_Proxy_trickle6.cfg", 600, 6),
-            ("fwd", "Gen_Proxy_fwd.cfg", 450, 3)]
+            ("trickle6", "Gen_Proxy_trickle6.cfg", 600, 6),
+            ("fwd", "Gen_Proxy_fwd.cfg" if thorough else "Gen_Proxy_fwd_quick.cfg", 450, 3)]
     if thorough:
-        gens.append(("codes", "Gen_Proxy_codes.cfg", 450, 3))
+        gens += [("timing", "Gen_Proxy_timing.cfg", 450, 3), ("codes", "Gen_Proxy_codes.cfg", 450, 3)]
     for key, cfg, _, _ in gens:
         tlc("gen_" + key, "MC_Proxy.tla", cfg, workers=1, timeout=1500, heap="6g")
     for d in (sorted(SENS) if thorough else SENS_QUICK):
         tlc("dev_" + d, "MC_Proxy.tla", "MC_Proxy_dev_%s.cfg" % d, workers=2, timeout=900)
-    for d in LB_SENS:
+    for d in (sorted(LB_SENS) if thorough else LB_SENS_QUICK):
         tlc("lbdev_" + d, "LoadBalancer.tla", "MC_LoadBalancer_dev_%s.cfg" % d, workers=1, timeout=600)
-    for w in ("AllTargetsUsed", "Interleaved"):
+    for w in (("AllTargetsUsed", "Interleaved") if thorough else ("Interleaved",)):
         tlc("lbwit_" + w, "LoadBalancer.tla", "MC_LoadBalancer_wit_%s.cfg" % w, workers=1, timeout=600)
     res = {}
     try:
